@@ -174,9 +174,16 @@ def derive_downstream(ast):
       continue
     lines.append("r_%s = modA.%s(%s)" % (n, n, a))
     expect["r_" + n] = sig.return_type
-  for c in ast.classes:
-    cn = c.name.split(".")[-1]
-    if cn.startswith("_") or c.template:
+  def all_classes(cs, path):
+    for c in cs:
+      nm = c.name.split(".")[-1]
+      yield c, path + [nm]
+      yield from all_classes(c.classes, path + [nm])
+
+  for c, cpath in all_classes(ast.classes, []):
+    cn = "_".join(cpath)
+    dotted = ".".join(cpath)
+    if cpath[-1].startswith("_") or c.template:
       continue
     init = [m for m in c.methods if m.name == "__init__"]
     new = [m for m in c.methods if m.name == "__new__"]
@@ -193,7 +200,7 @@ def derive_downstream(ast):
     elif any(b for b in c.bases if short(getattr(b, "name", "object"))
              not in ("object",)):
       continue      # inherited constructor: arguments unknown at this level
-    lines.append("i_%s = modA.%s(%s)" % (cn, cn, a))
+    lines.append("i_%s = modA.%s(%s)" % (cn, dotted, a))
     for k in c.constants:
       kn = k.name.split(".")[-1]
       if kn.startswith("_"):
@@ -310,8 +317,73 @@ def check_upstream(ctx, prog):
   shutil.rmtree(d, ignore_errors=True)
 
 
+FIXED = [
+    # a nested class sharing its name with a module-level class
+    """class Node:
+  v = 1
+class Tree:
+  class Node:
+    w = "s"
+    def __init__(self):
+      self.peer = Node()
+  root = Node()
+  def first(self):
+    return Node()
+t = Tree()
+n = Node()
+tn = Tree.Node()
+""",
+    # classes nested two and three levels deep
+    """class Outer:
+  class Mid:
+    class Leaf:
+      z = 1.5
+      def get(self):
+        return "s"
+    leaf = Leaf()
+    def mk(self):
+      return Outer.Mid.Leaf()
+  mid = Mid()
+  def deep(self):
+    return Outer.Mid.Leaf()
+o = Outer()
+lf = Outer.Mid.Leaf()
+m = Outer.Mid()
+pair = (lf, m)
+lst = [lf]
+""",
+    # empty containers, optional values, tuples of mixed arity
+    """e1 = []
+e2 = {}
+e3 = set()
+def mk_empty():
+  return []
+def opt(x=None):
+  if x:
+    return (1, "a")
+  return None
+class H:
+  items = []
+  table = {}
+  def __init__(self):
+    self.pairs = [(1, "a"), (2, "b")]
+    self.maybe = None
+h = H()
+t2 = opt(1)
+""",
+]
+
+
+def part_fixed(ctx):
+  for i, src in enumerate(FIXED):
+    if i % ctx.nshards == ctx.shard:
+      check_upstream(ctx, {"header": [], "stmts": [src.rstrip("\n")],
+                           "features": ["class", "instance", "inheritance"]})
+
+
 def run_shard(ctx):
   boot.ensure()
+  part_fixed(ctx)
   cfg = gen_py.Cfg(n_stmts=(5, 14))
   hyp_run(ctx, gen_py.program(cfg), lambda p: check_upstream(ctx, p),
           10 if ctx.quick() else 500, label="G")
